@@ -6,6 +6,7 @@ PathSet: `pathSetRules` is lawful on paths with plain known keys
 -/
 import CtyModel.PathSet
 import CtyModel.Lemmas.SetRefineRun
+import CtyModel.Lemmas.WalkApply
 namespace CtyModel
 
 /-! ### `rawNumberEqual` is the equality of a key -/
@@ -52,12 +53,19 @@ open SetImpl
 
 /-! ### the equivalence, in closed form on plain keys -/
 
-/-- `Key.Equals(other)` is known and true, for plain known number/string keys -/
+/-- the number or string a good key stands for (marks aside) -/
+def keyOf (a : Value) : Option (Num ⊕ String) :=
+  match a.ty, a.v.unmark1 with
+  | .number, .n x => some (.inl x)
+  | .string, .s x => some (.inr x)
+  | _, _ => none
+
+/-- `Key.Equals(other)` is known and true, for known number/string keys (marks aside) -/
 def keyEq (a b : Value) : Bool :=
-  match a.ty, a.v, b.ty, b.v with
-  | .number, .n x, .number, .n y => Num.rawEqual x y
-  | .string, .s x, .string, .s y => x == y
-  | _, _, _, _ => false
+  match keyOf a, keyOf b with
+  | some (.inl x), some (.inl y) => Num.rawEqual x y
+  | some (.inr x), some (.inr y) => x == y
+  | _, _ => false
 
 /-- the step loop of `Equivalent` in closed form -/
 def stepsEq : Path → Path → Bool
@@ -66,12 +74,31 @@ def stepsEq : Path → Path → Bool
   | [], _ => true
   | _, _ => false
 
-theorem equals_primKey {a b : Value} (ha : primKey a = true) (hb : primKey b = true) :
-    Value.equals a b = .ok (Value.boolVal (keyEq a b)) := by
+/-- the shape of a good key: a number or string payload under at most one marker -/
+theorem primKey_cases {a : Value} (h : primKey a = true) :
+    (∃ x, a = ⟨.number, .n x⟩) ∨ (∃ ms x, a = ⟨.number, .marked ms (.n x)⟩) ∨
+    (∃ x, a = ⟨.string, .s x⟩) ∨ (∃ ms x, a = ⟨.string, .marked ms (.s x)⟩) := by
   obtain ⟨ta, pa⟩ := a
-  obtain ⟨tb, pb⟩ := b
-  cases ta <;> cases pa <;> simp [primKey] at ha <;>
-    cases tb <;> cases pb <;> simp [primKey] at hb <;> rfl
+  cases ta <;> cases pa <;> simp [primKey, Payload.unmark1] at h
+  · exact Or.inl ⟨_, rfl⟩
+  · rename_i ms r
+    cases r <;> simp at h
+    exact Or.inr (Or.inl ⟨_, _, rfl⟩)
+  · exact Or.inr (Or.inr (Or.inl ⟨_, rfl⟩))
+  · rename_i ms r
+    cases r <;> simp at h
+    exact Or.inr (Or.inr (Or.inr ⟨_, _, rfl⟩))
+
+theorem unmark_withMarks (x : Value) (L : List String) : (x.withMarks L).unmark = x.unmark := by
+  simp only [Value.unmark, Value.withMarks, Walk.unmark1_withMarks]
+
+theorem equals_primKey {a b : Value} (ha : primKey a = true) (hb : primKey b = true) :
+    ∃ r, Value.equals a b = .ok r ∧ r.unmark = Value.boolVal (keyEq a b) := by
+  rcases primKey_cases ha with ⟨x, rfl⟩ | ⟨ms, x, rfl⟩ | ⟨x, rfl⟩ | ⟨ms, x, rfl⟩ <;>
+    rcases primKey_cases hb with ⟨y, rfl⟩ | ⟨ms', y, rfl⟩ | ⟨y, rfl⟩ | ⟨ms', y, rfl⟩ <;>
+    first
+    | exact ⟨_, rfl, rfl⟩
+    | exact ⟨_, rfl, unmark_withMarks _ _⟩
 
 theorem equivSteps_good : ∀ (p q : Path), keysOk p = true → keysOk q = true →
     equivSteps p q = .ok (stepsEq p q)
@@ -88,12 +115,12 @@ theorem equivSteps_good : ∀ (p q : Path), keysOk p = true → keysOk q = true 
     · simp [h]
   | .index a :: p, .index b :: q, hp, hq => by
     simp only [keysOk, Bool.and_eq_true] at hp hq
-    simp only [equivSteps, stepsEq, equals_primKey hp.1 hq.1]
+    obtain ⟨r, hr, hu⟩ := equals_primKey hp.1 hq.1
+    simp only [equivSteps, stepsEq, hr, hu]
     cases h : keyEq a b
-    · simp [Value.boolVal, Value.isKnown, Payload.isKnown, Payload.unmark1, Value.isMarked,
-        Payload.isMarked, Value.isTrue]
-    · simp [Value.boolVal, Value.isKnown, Payload.isKnown, Payload.unmark1, Value.isMarked,
-        Payload.isMarked, Value.isTrue, equivSteps_good p q hp.2 hq.2]
+    · simp [Value.boolVal, Value.isKnown, Payload.isKnown, Payload.unmark1, Value.isTrue]
+    · simp [Value.boolVal, Value.isKnown, Payload.isKnown, Payload.unmark1, Value.isTrue,
+        equivSteps_good p q hp.2 hq.2]
 
 /-- `Equivalent` on plain-key paths: same length and stepwise equal -/
 def pathEqv (p q : Path) : Bool := p.length == q.length && stepsEq p q
@@ -105,25 +132,36 @@ theorem equiv_good (p q : GoodPath) : goodRules.equiv p q = pathEqv p.1 q.1 := b
   · simp [h]
 
 theorem keyEq_refl {a : Value} (h : primKey a = true) : keyEq a a = true := by
-  obtain ⟨ta, pa⟩ := a
-  cases ta <;> cases pa <;> simp [primKey] at h <;> simp [keyEq, Num.rawEqual_refl]
+  rcases primKey_cases h with ⟨x, rfl⟩ | ⟨ms, x, rfl⟩ | ⟨x, rfl⟩ | ⟨ms, x, rfl⟩ <;>
+    simp [keyEq, keyOf, Payload.unmark1, Num.rawEqual_refl]
 
 theorem keyEq_symm {a b : Value} (h : keyEq a b = true) : keyEq b a = true := by
-  obtain ⟨ta, pa⟩ := a
-  obtain ⟨tb, pb⟩ := b
-  cases ta <;> cases pa <;> cases tb <;> cases pb <;> simp [keyEq] at h ⊢
-  · exact Num.rawEqual_symm h
-  · exact h.symm
+  simp only [keyEq] at h ⊢
+  cases ha : keyOf a with
+  | none => simp [ha] at h
+  | some ka =>
+    cases hb : keyOf b with
+    | none => cases ka <;> simp [ha, hb] at h
+    | some kb =>
+      cases ka <;> cases kb <;> simp [ha, hb] at h ⊢
+      · exact Num.rawEqual_symm h
+      · exact h.symm
 
 theorem keyEq_trans {a b c : Value} (h : keyEq a b = true) (h' : keyEq b c = true) :
     keyEq a c = true := by
-  obtain ⟨ta, pa⟩ := a
-  obtain ⟨tb, pb⟩ := b
-  obtain ⟨tc, pc⟩ := c
-  cases ta <;> cases pa <;> cases tb <;> cases pb <;> simp [keyEq] at h <;>
-    cases tc <;> cases pc <;> simp [keyEq] at h' ⊢
-  · exact Num.rawEqual_trans h h'
-  · exact h.trans h'
+  simp only [keyEq] at h h' ⊢
+  cases ha : keyOf a with
+  | none => simp [ha] at h
+  | some ka =>
+    cases hb : keyOf b with
+    | none => cases ka <;> simp [ha, hb] at h
+    | some kb =>
+      cases hc : keyOf c with
+      | none => cases kb <;> simp [hb, hc] at h'
+      | some kc =>
+        cases ka <;> cases kb <;> simp [ha, hb] at h <;> cases kc <;> simp [hb, hc] at h' ⊢
+        · exact Num.rawEqual_trans h h'
+        · exact h.trans h'
 
 theorem pathEqv_refl : ∀ (p : Path), keysOk p = true → pathEqv p p = true
   | [], _ => rfl
